@@ -187,7 +187,13 @@ func cutInside(text string, k int) bool {
 	return true
 }
 
-func runDelivery(c Case) *h.Result {
+func runDelivery(c Case) *h.Result { return runDeliveryMode(c, true) }
+
+// runDeliveryMode: strict = the text comes from the grammar, every delivery must give the outcome class of ReadString.
+// Not strict = the text is arbitrary (native fuzzing): when ReadString gives objects every delivery must give equal
+// objects (the text denotes that sequence); when it does not, a delivery must not read objects out of it and must not
+// fault - whether a malformed text is called incomplete or a parse error is not judged.
+func runDeliveryMode(c Case, strict bool) *h.Result {
 	res := &h.Result{Classes: []string{fmt.Sprintf("base:%d", c.Base)}}
 	data := []byte(c.Text)
 	n := len(data)
@@ -199,6 +205,12 @@ func runDelivery(c Case) *h.Result {
 	evals := 1
 	check := func(name string, got result) string {
 		evals++
+		if !strict && ref.kind != "objects" {
+			if got.kind == "objects" || got.kind == "fault" {
+				return fmt.Sprintf("%s reads a text that ReadString rejects, %q (base %d, %s):\n   ReadString: %s\n   %s: %s", name, c.Text, c.Base, c.Float, ref, name, got)
+			}
+			return ""
+		}
 		if !same(ref, got) {
 			return fmt.Sprintf("%s differs from ReadString on %q (base %d, %s):\n   ReadString: %s\n   %s: %s", name, c.Text, c.Base, c.Float, ref, name, got)
 		}
